@@ -1597,6 +1597,9 @@ impl<S: BitmapSlice + Send + Sync> FileSystem for PassthroughFs<S> {
         if res < 0 {
             Err(io::Error::last_os_error())
         } else {
+            // The descriptor has moved: the position recorded for do_readdir()'s sequential fast
+            // path no longer describes it (done while the file lock is still held).
+            self.handle_map.remove_cookie(handle);
             Ok(res as u64)
         }
     }
